@@ -25,32 +25,33 @@ Proof.
   intros i Hwf. unfold wf_C29 in Hwf. unfold prop_C29, run_C29.
   destruct (dec_C29 i) as [x|] eqn:Hd; [|discriminate].
   set (parse := lookup (i_orc x)). set (peer := i_peer x) in *. set (table := i_table x).
-  set (r := process parse table peer (i_hdrs x)).
+  set (host := host_C29). set (local := local_C29 (i_op x)).
+  set (r := process parse host local table peer (i_hdrs x)).
+  cbv zeta.
+  set (h := if i_op x =? 1 then to_backend (r_headers r) else r_headers r).
+  assert (Hh : forall k, In k addr_keys -> values_of k h = values_of k (r_headers r)).
+  { intros k Hk. unfold h. destruct (i_op x =? 1); [apply upstream_survives; exact Hk|reflexivity]. }
+  rewrite (Hh s_xff), (Hh s_xrip), (Hh s_xrport) by (simpl; tauto).
+  clearbody h. clear Hh.
   assert (Htr : r_trusted r = trusted table (a_ip peer)) by reflexivity.
-  destruct (xff_ends_with_peer parse table peer (i_hdrs x) Hwf) as [v [Hv Hl]].
+  destruct (xff_ends_with_peer parse host local table peer (i_hdrs x) Hwf) as [v [Hv Hl]].
   fold r in Hv.
-  cbv zeta. rewrite Htr.
-  replace (match vbool (trusted table (a_ip peer)) with VZ tr => tr | _ => 0 end) with
-      (if trusted table (a_ip peer) then 1 else 0) by (destruct (trusted table (a_ip peer)); reflexivity).
-  cbn [vbool].
-  assert (Hfirst : (match (if trusted table (a_ip peer) then VT else VF) with
-                    | VZ tr => tr =? (if trusted table (a_ip peer) then 1 else 0) | _ => false end) = true).
-  { destruct (trusted table (a_ip peer)); reflexivity. }
+  rewrite Htr.
   destruct (trusted table (a_ip peer)) eqn:Ht.
   - (* trusted *)
-    cbn [VT]. cbn [Z.eqb Pos.eqb andb negb]. rewrite as_LB_vLB, Hv, Hl, bytes_eqb_refl. cbn [andb].
+    cbn [vbool VT]. cbn [Z.eqb Pos.eqb andb negb]. rewrite as_LB_vLB, Hv, Hl, bytes_eqb_refl. cbn [andb].
     rewrite spec_candidate_eq.
     destruct (header_candidate (hdel s_host (parse_headers (i_hdrs x)))) as [cip cport] eqn:Hc.
     destruct cip as [|c0 cr]; [reflexivity|].
     fold parse. destruct (parse (c0 :: cr)) as [[ip text]|] eqn:Hp; [|reflexivity].
     assert (Hne : c0 :: cr <> []) by discriminate.
-    destruct (trusted_honours parse table peer (i_hdrs x) (c0 :: cr) cport ip text Ht Hc Hne Hp)
+    destruct (trusted_honours parse host local table peer (i_hdrs x) (c0 :: cr) cport ip text Ht Hc Hne Hp)
       as [_ [Hca [Hri Hrp]]]. fold r in Hca, Hri, Hrp.
     rewrite Hri, Hca, Hrp. cbn [enc_addr a_ip a_port]. rewrite !val_eqb_refl, bytes_eqb_refl. cbn [andb].
     destruct (atoi cport); [apply Z.eqb_refl|reflexivity].
   - (* untrusted *)
-    cbn [VF]. cbn [Z.eqb andb negb]. rewrite as_LB_vLB, Hv, Hl, bytes_eqb_refl. cbn [andb].
-    destruct (untrusted_uses_peer parse table peer (i_hdrs x) Ht) as [_ [Hca [Hri Hrp]]]. fold r in Hca, Hri, Hrp.
+    cbn [vbool VF]. cbn [Z.eqb andb negb]. rewrite as_LB_vLB, Hv, Hl, bytes_eqb_refl. cbn [andb].
+    destruct (untrusted_uses_peer parse host local table peer (i_hdrs x) Ht) as [_ [Hca [Hri Hrp]]]. fold r in Hca, Hri, Hrp.
     rewrite Hca, Hri, Hrp. cbn [enc_addr]. rewrite !val_eqb_refl. reflexivity.
 Qed.
 
@@ -66,5 +67,5 @@ Lemma ex_wire_ok :
   wf_C29 ex_wire = true /\
   run_C29 ex_wire = VL [VZ 1; VL [VB [0;0;0;0;0;0;0;0;0;0;255;255;1;2;3;4]; VZ 0];
                         VL [VB [49;50;55;46;48;46;48;46;50]]; VL [VB [49;46;50;46;51;46;52]]; VL [VB [48]];
-                        VL [VB [52;48;48;48;48]]].
+                        VL [VB [52;48;48;48;48]]; VL [VB host_C29]; VL [VB [49;50;55;46;48;46;48;46;49]]].
 Proof. vm_compute. split; reflexivity. Qed.
